@@ -116,6 +116,7 @@ class Compiler:
         if not found:
             raise Unsupported(f"method {cls.name}.{method} not found")
         (fn, relpath, owner), ocls = found
+        saved_file = getattr(self, "cur_file", None)
         if outer.depth > 12:
             raise Unsupported("inline depth")
         params = [p.arg for p in fn.args.args]
@@ -145,13 +146,12 @@ class Compiler:
         ctx = Ctx(cls, model or outer.model, prefix if prefix is not None else outer.prefix, ret_target=target,
                   end_label=end, locks=list(outer.locks), handler=outer.handler, env=env, op_slot=outer.op_slot,
                   depth=outer.depth + 1, own_lock_base=len(outer.locks), owner=ocls)
-        saved = getattr(self, "cur_file", None)
         self.cur_file = relpath
         fell = self.block(fn.body, ctx)
         if fell and target is not None:
             self.emit("assign", fn, target, ("none",), note="implicit return None")
         self.place(end)
-        self.cur_file = saved or relpath
+        self.cur_file = saved_file or relpath
 
     def const_expr(self, node):
         if isinstance(node, ast.Constant):
